@@ -36,6 +36,7 @@ def parseUOp (j : Json) : R (Op FB) := do
   | "array" => pure (.mkArray (← fbList a[1]!) (← parseSpec a[2]!))
   | "xy" => pure (.mkXY (← fbList a[1]!) (← fbList a[2]!) (← parseSpec a[3]!) (← parseSpec a[4]!))
   | "rewrap" => pure (.rewrap (← getNatList a[1]!) (← parseSpec a[2]!))
+  | "rewrapxy" => pure (.rewrapXY (← getNatList a[1]!) (← getNatList a[2]!) (← parseSpec a[3]!) (← parseSpec a[4]!))
   | "seterr" => pure (.setError (← a[1]!.getNat?) (← fb1 a[2]!))
   | "setrel" => pure (.setRelError (← a[1]!.getNat?) (← fb1 a[2]!))
   | "setval" => pure (.setValue (← a[1]!.getNat?) (← fb1 a[2]!))
